@@ -15,7 +15,9 @@ func TestC14(t *testing.T) {
 		n = []string{"n1", "n2", "n3"}
 	}
 	churn := &w.Alpha{PodDev: []string{"unready", "fail"}, AddNodes: []string{"n9"}, DelNodes: true, Annots: []string{"rolling-update-paused=true", "rollout-frozen=true"}}
-	scs := []scOpt{corpusS1(b, churn), corpusS2(n, "2", b, churn), corpusS3(n, "1", "auto", b, canaryDev())}
+	// paused AND failed needs two deviations (auto-pause by restarts or user pause, then failure)
+	pausedFailed := &w.Alpha{Kubectl: []string{"canary-pause", "canary-fail"}, PodDev: []string{"restart:2", "restart:3"}}
+	scs := []scOpt{corpusS1(b, churn), corpusS2(n, "2", b, churn), corpusS3(n, "1", "auto", b, canaryDev()), corpusS3([]string{"n1", "n2"}, "1", "manual", 2, pausedFailed)}
 	type sample struct {
 		sc *w.Scenario
 		s  *w.State
